@@ -13,7 +13,9 @@ Import ListNotations.
 (* SStartFail: start() while a foreign socket holds the port: the call raises unless the server is already
    running (then it returns at once); observation: did it raise *)
 (* SStartThreadFail: start() while the OS refuses a new thread: bind succeeds, Thread.start() raises *)
-Inductive sop := SStart | SStop | SRequest | STick | SStopBusy | SStartFail | SStartThreadFail.
+(* SStopOpenConn: stop() while a client connection is open but idle (no request sent yet): stop() must return
+   and release everything all the same -- for the lifecycle machine it is a stop() *)
+Inductive sop := SStart | SStop | SRequest | STick | SStopBusy | SStartFail | SStartThreadFail | SStopOpenConn.
 
 Section Seq.
   Variables (G PC OP : Type).
@@ -67,7 +69,7 @@ Section Seq.
   Definition seq_step (gl : G) (o : sop) : option (G * list nat) :=
     match o with
     | SStart => match call gl op_start with Some g' => Some (g', view g' ++ [0; 0]) | None => None end
-    | SStop => match call gl op_stop with Some g' => Some (g', view g' ++ [0; 0]) | None => None end
+    | SStop | SStopOpenConn => match call gl op_stop with Some g' => Some (g', view g' ++ [0; 0]) | None => None end
     | SRequest => Some (gl, view gl ++ [serving gl; 0])
     | STick => let g' := match mstep gl with Some g' => g' | None => gl end in Some (g', view g' ++ [0; 0])
     | SStartFail => match call gl op_startf with
@@ -96,7 +98,7 @@ End Seq.
 
 (* the specification: a two-state automaton; r = "running" *)
 Definition spec_next (r : bool) (o : sop) : bool :=
-  match o with SStart => true | SStop | SStopBusy => false | _ => r end.
+  match o with SStart => true | SStop | SStopBusy | SStopOpenConn => false | _ => r end.
 Definition b2 (b : bool) : nat := if b then 1 else 0.
 Definition spec_obs (r : bool) (o : sop) : list nat :=
   let r' := spec_next r o in
